@@ -65,6 +65,7 @@ fn run_scenario(out: &mut TraceOut, family: &str, seed: u64, idx: u64, heavy: bo
             let _ = std::fs::remove_dir_all(&scratch);
         }
         "explore" => cursor::scn_explore(out, &mut r, idx, heavy),
+        "chunks" => sorter::scn_chunks(out, &mut r, idx, heavy),
         "format" => layout::scn_format(out, &mut r, idx, heavy),
         "cut" => layout::scn_cut(out, &mut r, idx, heavy),
         "unsorted" => layout::scn_unsorted(out, &mut r, idx, heavy),
